@@ -785,7 +785,75 @@ fn run_case(case: &str) -> (String, String, String) {
     )
 }
 
+/// wave 3, second half: paths that write a read-only variable with a special name, through the whole
+/// shell (`cd` -> PWD / OLDPWD, `getopts` -> OPTIND / OPTARG, an assignment to LINENO).
+/// (script, the read-only variable, other names observed)
+fn rop_script(k: &str) -> Option<(&'static str, &'static str, &'static [&'static str])> {
+    Some(match k {
+        "cdpwd" => ("PWD=0\nreadonly PWD\ncd /\necho r$?", "PWD", &[]),
+        "cdold" => ("OLDPWD=0\nreadonly OLDPWD\ncd /\necho r$?", "OLDPWD", &[]),
+        "optind" => ("readonly OPTIND\ngetopts a o -a\necho r$?", "OPTIND", &["o"]),
+        "optarg" => ("OPTARG=0\nreadonly OPTARG\ngetopts a: o -a v\necho r$?", "OPTARG", &["o"]),
+        "optargu" => ("OPTARG=0\nreadonly OPTARG\ngetopts a o -a\necho r$?", "OPTARG", &["o"]),
+        "linenoas" => ("readonly LINENO\nLINENO=5\necho r$?", "LINENO", &[]),
+        _ => return None,
+    })
+}
+
+fn rop_case(k: &str) -> (String, String) {
+    let Some((text, target, others)) = rop_script(k) else {
+        return ("bad-case".into(), "-".into());
+    };
+    let names: Vec<&str> = std::iter::once(target).chain(others.iter().copied()).collect();
+    // the target right after it was marked read-only: run the first two / one lines only
+    let prefix: String = text.split('\n').take_while(|l| !l.starts_with("readonly")).chain(
+        text.split('\n').filter(|l| l.starts_with("readonly"))).collect::<Vec<_>>().join("\n");
+    let snapshot = |script: &str| {
+        let names = names.clone();
+        let (outcome, vars) = run_with(
+            Config::new(script),
+            |_env, _state| {},
+            move |env, _state| {
+                names
+                    .iter()
+                    .map(|n| format!("{}={}", n, show_v(env.variables.get(*n))))
+                    .collect::<Vec<String>>()
+            },
+        );
+        (outcome, vars.unwrap_or_default())
+    };
+    let (_, before) = snapshot(&prefix);
+    let (outcome, after) = snapshot(text);
+    if outcome.stuck {
+        return ("TIMEOUT".into(), "FAIL:stuck".into());
+    }
+    let mut lines: Vec<String> = outcome.stdout_str().lines().map(|l| l.to_string()).collect();
+    if !lines.iter().any(|l| l.starts_with('r')) {
+        lines.push(format!("x{}", outcome.exit_status));
+    }
+    lines.extend(after.iter().cloned());
+    // oracle, the clause itself: the read-only variable is what it was when it was marked
+    let oracle = if before.first() == after.first() && after.first().map(|v| v.ends_with("/1")).unwrap_or(false) {
+        "ok".to_string()
+    } else {
+        format!("FAIL:read-only {target} changed: {:?} -> {:?}", before.first(), after.first())
+    };
+    (lines.join(" | "), oracle)
+}
+
 fn run_guarded(case: &str) -> (String, String, String) {
+    if let Some(k) = case.strip_prefix("rop ") {
+        let mut out = (String::new(), String::new());
+        let o = guarded(|| {
+            out = rop_case(k.trim());
+            out.0.clone()
+        });
+        return if o.starts_with("PANIC") {
+            (o.clone(), format!("FAIL:{o}"), String::new())
+        } else {
+            (out.0, out.1, String::new())
+        };
+    }
     if let Some(body) = case.strip_prefix("sh ") {
         let mut out = (String::new(), String::new());
         let o = guarded(|| {
@@ -922,12 +990,19 @@ fn render_stmt(st: &Stmt) -> Option<String> {
             st.pre.first()?,
             post
         ),
-        "T" => format!("typeset {pre} {post}"),
+        "T" => format!("typeset {pre} {post}\necho r$?"),
+        // wave 3, second half: other paths of the language that assign (all at Global scope)
+        "FOR" => format!("for {} in {post}; do :; done", st.pre.first()?),
+        "AR" => st.post.iter().map(|v| format!(": $(({}={v}))", st.pre.first().map(|s| s.as_str()).unwrap_or("x"))).collect::<Vec<_>>().join("\n"),
+        "DEF" => format!(": ${{{}={}}}", st.pre.first()?, st.post.first()?),
+        "GO" => format!("OPTIND=1\ngetopts a {} -a\necho r$?", st.pre.first()?),
+        "UF" => format!("unset -f {pre}"),
+        "RD" => format!("read {} <<E\n{post}\nE\necho r$?", st.pre.join(" ")),
         // wave 3: temporary assignments before the (regular) built-in typeset: `x=T typeset -g x`
         "TP" => {
             let (a, o): (Vec<&String>, Vec<&String>) = st.pre.iter().partition(|t| t.contains('='));
             format!(
-                "{} typeset {} {post}",
+                "{} typeset {} {post}\necho r$?",
                 a.iter().map(|t| render_assign(t)).collect::<Vec<_>>().join(" "),
                 o.iter().map(|t| t.as_str()).collect::<Vec<_>>().join(" ")
             )
@@ -943,8 +1018,8 @@ fn render_stmt(st: &Stmt) -> Option<String> {
         "E" => format!("{pre} export {post}"),
         "EX" => format!("export {pre}"),
         "R" => format!("readonly {pre}"),
-        "L" => format!("typeset {pre}"),
-        "G" => format!("typeset -g {pre}"),
+        "L" => format!("typeset {pre}\necho r$?"),
+        "G" => format!("typeset -g {pre}\necho r$?"),
         "U" => format!("unset {pre}"),
         "SP" => format!("set -- {pre}"),
         _ => return None,
@@ -1044,9 +1119,10 @@ impl NaiveScript<'_> {
         false
     }
     /// the attribute loop of `typeset` for one operand
-    fn typeset_field(&mut self, sc: Scope, opts: &[String], t: &str) {
+    /// returns true when the operand caused an error (refused assignment, `+r` on a read-only variable)
+    fn typeset_field(&mut self, sc: Scope, opts: &[String], t: &str) -> bool {
         if self.run_ops(&operand_ops(sc, t)) {
-            return;
+            return true;
         }
         let n = split_assign(t).0;
         for o in opts {
@@ -1056,7 +1132,7 @@ impl NaiveScript<'_> {
                 }
                 "+r" => {
                     if self.n.get(&n).map(|v| v.is_read_only()).unwrap_or(false) {
-                        return;
+                        return true;
                     }
                 }
                 "-x" => {
@@ -1068,6 +1144,11 @@ impl NaiveScript<'_> {
                 _ => {}
             }
         }
+        false
+    }
+    /// `export` / `readonly` / `unset`: every operand is processed, the errors are counted
+    fn go_on(&mut self, per_operand: &[Vec<Op>]) -> usize {
+        per_operand.iter().filter(|ops| self.run_ops(ops)).count()
     }
     /// which variables `typeset -p` / `export -p` / `readonly -p` select, and the flags shown
     fn print_lines(&self, b: &str, opts: &[String], names: &[String]) -> Vec<String> {
@@ -1122,45 +1203,88 @@ impl NaiveScript<'_> {
     fn exec3(&mut self, stmts: &[Stmt], depth: usize) -> u8 {
         for st in stmts {
             self.out.push(format!("@{}", st.kind));
-            let with_export = |ts: &[String], f: &dyn Fn(String) -> Op| -> Vec<Op> {
-                let mut v = vec![];
-                for t in ts {
-                    v.extend(operand_ops(Scope::Global, t));
-                    v.push(f(split_assign(t).0));
-                }
-                v
+            let with_export = |ts: &[String], f: &dyn Fn(String) -> Op| -> Vec<Vec<Op>> {
+                ts.iter()
+                    .map(|t| {
+                        let mut v = operand_ops(Scope::Global, t);
+                        v.push(f(split_assign(t).0));
+                        v
+                    })
+                    .collect()
             };
-            let aborted = match st.kind.as_str() {
-                "A" | "S" => self.run_assigns(&st.pre, Scope::Global, false),
+            // 0 = the script goes on; otherwise the exit status the shell ends with
+            let aborted: u8 = match st.kind.as_str() {
+                "A" | "S" => 2 * self.run_assigns(&st.pre, Scope::Global, false) as u8,
+                // export / readonly / unset go on after a refused operand and fail at the end
                 "E" => {
-                    self.run_assigns(&st.pre, Scope::Global, false)
-                        || self.run_ops(&with_export(&st.post, &|n| Op::Ex(n, Scope::Global, true)))
+                    if self.run_assigns(&st.pre, Scope::Global, false) {
+                        2
+                    } else {
+                        (self.go_on(&with_export(&st.post, &|n| Op::Ex(n, Scope::Global, true))) > 0) as u8
+                    }
                 }
-                "EX" => self.run_ops(&with_export(&st.pre, &|n| Op::Ex(n, Scope::Global, true))),
-                "R" => self.run_ops(&with_export(&st.pre, &|n| Op::Ro(n, Scope::Global, 1))),
+                "EX" => (self.go_on(&with_export(&st.pre, &|n| Op::Ex(n, Scope::Global, true))) > 0) as u8,
+                "R" => (self.go_on(&with_export(&st.pre, &|n| Op::Ro(n, Scope::Global, 1))) > 0) as u8,
+                "FOR" | "AR" => {
+                    let m = st.pre.first().cloned().unwrap_or_else(|| "x".into());
+                    let ops: Vec<Op> = st
+                        .post
+                        .iter()
+                        .map(|v| Op::As(m.clone(), Scope::Global, Value::scalar(v.as_str()), None))
+                        .collect();
+                    2 * self.run_ops(&ops) as u8
+                }
+                "DEF" => {
+                    let m = st.pre.first().cloned().unwrap_or_else(|| "x".into());
+                    let has_value = View::get(&self.n, &m).and_then(|v| v.value).is_some();
+                    match st.post.first() {
+                        Some(v) if !has_value => {
+                            2 * self.run_ops(&[Op::As(m, Scope::Global, Value::scalar(v.as_str()), None)]) as u8
+                        }
+                        _ => 0,
+                    }
+                }
+                "UF" => 0,
+                "RD" | "GO" => {
+                    let go = ["a".to_string()];
+                    let words: &[String] = if st.kind == "GO" { &go } else { &st.post };
+                    let per: Vec<Vec<Op>> = st
+                        .pre
+                        .iter()
+                        .zip(words.iter())
+                        .map(|(m, v)| vec![Op::As(m.clone(), Scope::Global, Value::scalar(v.as_str()), None)])
+                        .collect();
+                    let e = self.go_on(&per);
+                    self.out.push(if e == 0 { "r0".into() } else { "r2".into() });
+                    0
+                }
                 "RET" => return 2,
                 "T" => {
                     self.n.apply(&Op::PushV);
                     let sc = if st.pre.iter().any(|o| o == "-g") { Scope::Global } else { Scope::Local };
+                    let mut e = 0;
                     for t in &st.post {
-                        self.typeset_field(sc, &st.pre, t);
+                        e += self.typeset_field(sc, &st.pre, t) as usize;
                     }
                     self.n.apply(&Op::Pop);
-                    false
+                    self.out.push(if e == 0 { "r0".into() } else { "r1".into() });
+                    0
                 }
                 "TP" => {
                     let (temps, opts): (Vec<String>, Vec<String>) =
                         st.pre.iter().cloned().partition(|t| t.contains('='));
                     self.n.apply(&Op::PushV);
                     if self.run_assigns(&temps, Scope::Volatile, true) {
-                        true
+                        2
                     } else {
                         let sc = if opts.iter().any(|o| o == "-g") { Scope::Global } else { Scope::Local };
+                        let mut e = 0;
                         for t in &st.post {
-                            self.typeset_field(sc, &opts, t);
+                            e += self.typeset_field(sc, &opts, t) as usize;
                         }
                         self.n.apply(&Op::Pop);
-                        false
+                        self.out.push(if e == 0 { "r0".into() } else { "r1".into() });
+                        0
                     }
                 }
                 "D" => {
@@ -1169,6 +1293,7 @@ impl NaiveScript<'_> {
                         return 1;
                     };
                     if b != "t" && st.post.iter().any(|n| self.n.get_scoped(n, Scope::Global).is_none()) {
+                        self.out.push("x1".into());
                         return 1;
                     }
                     if b == "t" {
@@ -1179,29 +1304,30 @@ impl NaiveScript<'_> {
                     if b == "t" {
                         self.n.apply(&Op::Pop);
                     }
-                    false
+                    0
                 }
                 "U" | "UV" => {
-                    let ops: Vec<Op> =
-                        st.pre.iter().map(|n| Op::Un(n.clone(), Scope::Global)).collect();
-                    self.run_ops(&ops)
+                    let per: Vec<Vec<Op>> =
+                        st.pre.iter().map(|n| vec![Op::Un(n.clone(), Scope::Global)]).collect();
+                    (self.go_on(&per) > 0) as u8
                 }
-                "SP" => self.run_ops(&[Op::Sp(st.pre.clone())]),
+                "SP" => 2 * self.run_ops(&[Op::Sp(st.pre.clone())]) as u8,
                 "L" | "G" => {
                     let sc = if st.kind == "L" { Scope::Local } else { Scope::Global };
-                    let mut ops = vec![Op::PushV];
+                    self.n.apply(&Op::PushV);
+                    let mut e = 0;
                     for t in &st.pre {
-                        ops.extend(operand_ops(sc, t));
+                        e += self.typeset_field(sc, &[], t) as usize;
                     }
-                    self.run_ops(&ops);
                     self.n.apply(&Op::Pop);
-                    false
+                    self.out.push(if e == 0 { "r0".into() } else { "r1".into() });
+                    0
                 }
                 "P" | "N" | "X" => {
                     let exp = self.exp();
                     self.n.apply(&Op::PushV);
                     if self.run_assigns(&st.pre, Scope::Volatile, true) {
-                        true
+                        2
                     } else {
                         if st.kind == "P" {
                             self.out.push(self.vline(&exp));
@@ -1209,7 +1335,7 @@ impl NaiveScript<'_> {
                             self.out.push(format!("e {}", script_env(&View::env(&self.n))));
                         }
                         self.n.apply(&Op::Pop);
-                        false
+                        0
                     }
                 }
                 "C" => {
@@ -1224,27 +1350,30 @@ impl NaiveScript<'_> {
                     };
                     self.n.apply(&Op::PushV);
                     if self.run_assigns(&st.pre[1..], Scope::Volatile, true) {
-                        true
+                        2
                     } else if depth > 40 {
                         self.out.push("fuel".into());
-                        true
+                        255
                     } else {
                         self.n.apply(&Op::PushR(st.post.clone()));
                         if self.exec3(&body, depth + 1) == 1 {
-                            true
+                            255 // already reported by the inner statement
                         } else {
                             self.n.apply(&Op::Pop);
                             self.n.apply(&Op::Pop);
-                            false
+                            0
                         }
                     }
                 }
                 _ => {
                     self.out.push("bad".into());
-                    true
+                    255
                 }
             };
-            if aborted {
+            if aborted != 0 {
+                if aborted != 255 {
+                    self.out.push(format!("x{aborted}"));
+                }
                 return 1;
             }
             let exp = self.exp();
@@ -1288,18 +1417,25 @@ fn script_case(body: &str) -> (String, String) {
                 .save("/bin/ext", std::rc::Rc::new(std::cell::RefCell::new(inode)))
                 .unwrap();
         },
-        |_env, state| {
+        |env, state| {
             let st = state.borrow();
-            st.processes
+            let execs = st
+                .processes
                 .values()
                 .filter_map(|p| p.last_exec().as_ref())
                 .map(|(_, _, envs)| {
                     let e: Vec<Vec<u8>> = envs.iter().map(|c| c.to_bytes().to_vec()).collect();
                     script_env(&e)
                 })
-                .collect::<Vec<String>>()
+                .collect::<Vec<String>>();
+            // the variables the shell is left with when it has ended (all context guards dropped)
+            (execs, show_state(&env.variables))
         },
     );
+    let (execs, final_state) = match execs {
+        Some((e, f)) => (Some(e), f),
+        None => (None, "?".to_string()),
+    };
     if outcome.stuck {
         return ("TIMEOUT".into(), "FAIL:stuck".into());
     }
@@ -1348,14 +1484,24 @@ fn script_case(body: &str) -> (String, String) {
         if lines.last().map(|l| l == "e ?").unwrap_or(false) {
             lines.pop();
         }
-        lines.push("abort".into());
+        // the exit status the shell ended with and the variables it was left with
+        lines.push(format!("x{}", outcome.exit_status));
+        lines.push(format!("abort {final_state}"));
     }
     let obs = lines.join(" | ");
     // oracle: the naive stack of maps predicts every line
     let mut ns = NaiveScript { funs: &parts, n: Naive::new(), out: vec![] };
     let main = parts.iter().find(|(n, _)| n == "main").map(|(_, b)| b.clone()).unwrap_or_default();
     let aborted = ns.exec(&main, 0);
-    ns.out.push(if aborted { "abort".into() } else { "@END".into() });
+    if aborted {
+        for _ in 0..8 {
+            ns.n.apply(&Op::Pop);
+        }
+        let st = show_state(&ns.n);
+        ns.out.push(format!("abort {st}"));
+    } else {
+        ns.out.push("@END".into());
+    }
     let oracle = if ns.out.join(" | ") == obs { "ok".into() } else { "FAIL:naive-script".to_string() };
     (obs, oracle)
 }
@@ -1397,6 +1543,27 @@ fn random_script(r: &mut Rng) -> String {
     };
     let stmt = |r: &mut Rng, callee: Option<&str>, in_fn: bool| -> String {
         loop {
+            // wave 3, second half: the other assigning paths of the language, and `unset` with several
+            // operands (the built-ins go on after a refused operand)
+            if r.chance(1, 7) {
+                let m = *r.pick(&SCRIPT_NAMES);
+                let s = match r.below(8) {
+                    0 => format!("FOR {m} -- {} {}", r.pick(&["1", "2", "T"]), r.pick(&["1", "2", "Q"])),
+                    1 => format!("AR {m} -- {}", r.pick(&["1", "2", "7"])),
+                    2 => format!("DEF {m} -- {}", r.pick(&["1", "Q", "7"])),
+                    3 => format!("RD {m} -- {}", r.pick(&["a", "b", "1"])),
+                    4 => format!(
+                        "RD {m} {} -- {} {}",
+                        r.pick(&SCRIPT_NAMES),
+                        r.pick(&["a", "b", "1"]),
+                        r.pick(&["c", "2"])
+                    ),
+                    5 => format!("U {m} {} {}", r.pick(&SCRIPT_NAMES), r.pick(&["", "x", "z"])),
+                    6 => format!("GO {m}"),
+                    _ => format!("UF {m}"),
+                };
+                return s.split_whitespace().collect::<Vec<_>>().join(" ");
+            }
             let k = r.below(if in_fn { 34 } else { 29 });
             let s = match k {
                 0 | 1 | 2 => {
